@@ -1,7 +1,8 @@
 """property id -> check function(prop, tier, replay) -> exit code"""
-from . import router
+from . import router, reg
 
 CHECKS = {
     "C01": router.run,
     "C02": router.run,
+    "C16": reg.run,
 }
